@@ -256,7 +256,7 @@ def _domains(ctx, cls):
     chk = ctx.chk
     chk.rule("R03.h", "variable domains are [0, total duration] and no linear constraint beyond end = start + duration and job precedence is added (nothing can cut off the optimum)")
     solve = cls.methods["solve"]
-    F = ctx.norm.flat(solve, depth=4)
+    F = ctx.norm.flat(solve, depth=6)
     ivs = _calls(F, "NewIntVar")
     if not ivs:
         raise AnalysisError("no NewIntVar call in the flattened solve")
@@ -356,7 +356,7 @@ def _find_roles(ctx, solve):
     of the private attributes is not an analysis error):
     table    - self.X[<operation>] = (<start var>, <end var>) / a record of both
     makespan - self.Y = <model>.NewIntVar(...) handed to AddMaxEquality"""
-    F = ctx.norm.flat(solve, depth=3)
+    F = ctx.norm.flat(solve, depth=6)
     table = mk = None
     for n in own_nodes(F.node):
         if isinstance(n, ast.Assign) and len(n.targets) == 1:
@@ -431,7 +431,7 @@ def _position_of(ctx, F, key):
 def _shapes(ctx, cls):
     chk = ctx.chk
     solve = cls.methods["solve"]
-    F = ctx.norm.flat(solve, depth=4)
+    F = ctx.norm.flat(solve, depth=6)
     found = {"enddef": [], "prec": [], "nool": [], "maxeq": [], "minim": []}
     for c in _calls(F, "Add"):
         a = c.args[0] if c.args else None
